@@ -2,6 +2,7 @@ package main
 
 import (
 	"fmt"
+	"os"
 	"sort"
 	"strings"
 )
@@ -128,6 +129,9 @@ func (f *FuncIVL) expandPseudo(zero func(heapVar string) *Term) {
 				}
 			case SHavocSet:
 				for _, hv := range f.allHeapVars() {
+					if s.Set["$nodecoderstate"] && isDecoderState(hv) {
+						continue
+					}
 					if hv != "$alloc" && (modsetMatches(s.Set, hv) || (s.Set["F.packetDecoder.*"] && strings.HasPrefix(hv, "F.packetDecoder."))) {
 						out = append(out, &Stmt{Kind: SHavoc, Var: hv, Sort: f.Vars[hv], Note: s.Note})
 					}
@@ -158,6 +162,19 @@ func (f *FuncIVL) expandPseudo(zero func(heapVar string) *Term) {
 // fillLoopHavocs inserts, at every cut loop head, a havoc of each variable assigned in the loop.
 func (f *FuncIVL) fillLoopHavocs(reg *SortReg) {
 	fresh := 0
+	// single-assignment variables, to resolve frozen references (computed before any loop havoc is inserted)
+	defs := map[string]*Term{}
+	ndef := map[string]int{}
+	for _, bb := range f.Blocks {
+		for _, s := range bb.Stmts {
+			if s.Kind == SAssign || s.Kind == SHavoc {
+				ndef[s.Var]++
+				if s.Kind == SAssign {
+					defs[s.Var] = s.E
+				}
+			}
+		}
+	}
 	for _, b := range f.Blocks {
 		if b.Loop == nil {
 			continue
@@ -187,19 +204,6 @@ func (f *FuncIVL) fillLoopHavocs(reg *SortReg) {
 			names = append(names, v)
 		}
 		sort.Strings(names)
-		// single-assignment temporaries, to resolve frozen references
-		defs := map[string]*Term{}
-		ndef := map[string]int{}
-		for _, bb := range f.Blocks {
-			for _, s := range bb.Stmts {
-				if s.Kind == SAssign || s.Kind == SHavoc {
-					ndef[s.Var]++
-					if s.Kind == SAssign {
-						defs[s.Var] = s.E
-					}
-				}
-			}
-		}
 		var resolve func(t *Term, depth int) *Term
 		resolve = func(t *Term, depth int) *Term {
 			if depth > 8 {
@@ -249,12 +253,12 @@ func (f *FuncIVL) fillLoopHavocs(reg *SortReg) {
 							continue
 						}
 						if s.Kind == SAssign && s.E.Op == "store" && s.E.Args[0].Op == "var" && s.E.Args[0].Name == v {
-							if isFreshRef(s.E.Args[1], defs, ndef, 0) {
+							r := resolve(s.E.Args[1], 0)
+							if r == nil && isFreshRef(s.E.Args[1], defs, ndef, 0) {
 								// an object allocated inside the loop: not below the allocation counter at loop entry
 								hasFresh = true
 								continue
 							}
-							r := resolve(s.E.Args[1], 0)
 							if r != nil {
 								refs = append(refs, r)
 								key := r.String()
@@ -278,6 +282,9 @@ func (f *FuncIVL) fillLoopHavocs(reg *SortReg) {
 								}
 								continue
 							}
+						}
+						if os.Getenv("VERIF_DEBUG_LOOP") != "" {
+							fmt.Fprintf(os.Stderr, "loop head B%d: %s not cell-wise because of stmt kind=%d var=%s expr=%v note=%s\n", b.ID, v, s.Kind, s.Var, s.E, s.Note)
 						}
 						cellwise = false
 					}
@@ -510,4 +517,8 @@ func (f *FuncIVL) splitJoinAsserts() {
 			}
 		}
 	}
+}
+
+func isDecoderState(hv string) bool {
+	return strings.HasPrefix(hv, "F.packetDecoder.") || strings.HasPrefix(hv, "F.realDecoder.")
 }
